@@ -132,6 +132,22 @@ impl RevertibleBuffer {
     }
 }
 
+/// Revisions of the buffered copies, for the solver-based checks in `/verif` (`--cfg gmsol_verif`).
+#[cfg(gmsol_verif)]
+impl RevertibleBuffer {
+    pub(super) fn verif_pool_rev(&self, kind: PoolKind) -> Option<u64> {
+        Some(self.state.pools.get(kind)?.rev())
+    }
+
+    pub(super) fn verif_clocks_rev(&self) -> u64 {
+        self.state.clocks.rev()
+    }
+
+    pub(super) fn verif_other_rev(&self) -> u64 {
+        self.state.other.rev()
+    }
+}
+
 #[zero_copy]
 #[cfg_attr(feature = "debug", derive(Debug))]
 #[cfg_attr(feature = "serde", derive(serde::Serialize, serde::Deserialize))]
